@@ -45,6 +45,10 @@ def run(tier):
     inputs = [{"n": n, "codes": [], "program": p, "graph": None, "src": src} for (n, p, src) in progs]
     # the textbook graph-state program of every table line on that line's connectivity: every class x connectivity is compressed at least once
     inputs += [dict(i, codes=[]) for i in sweep.inputs_table_graphs(L)]
+    # swap-only circuits on every connectivity; already tailored short circuits containing swaps on their own connectivity
+    special = sweep.special_programs(ck, ck.seed, quick) + sweep.table_plus_swap_programs(L, rng, 12 if quick else 120)
+    inputs += special
+    ck.cov["special_programs"] = len(special)
     if quick:   # simulated programs on every connectivity; n=2,3 graph programs on every connectivity
         jobs = sweep.expand_jobs(inputs, ["compress"], rng)
     else:
